@@ -69,6 +69,15 @@ def families():
         for d in range(0, 9):
             add("facratio_%d_%d" % (c, d), [], "faculty_ratio %d %d" % (c, d), "eq", "scalar",
                 "internal::facultyRatio<Sym>(%d, %d)" % (c, d))
+    # large arguments: results beyond 2^64 and 2^53 (exact tie only; gen/symround.py skips these families)
+    for n in (13, 18, 20, 21, 22, 25, 30):
+        add("bigfaculty_%d" % n, [], "faculty %d" % n, "eq", "scalar", "internal::faculty<Sym>(%d)" % n)
+    for c, d in ((21, 0), (22, 2), (25, 5), (30, 12), (0, 21), (3, 25), (40, 20)):
+        add("bigfacratio_%d_%d" % (c, d), [], "faculty_ratio %d %d" % (c, d), "eq", "scalar",
+            "internal::facultyRatio<Sym>(%d, %d)" % (c, d))
+    for n, k in ((22, 11), (25, 10), (30, 15), (40, 20), (40, 3), (34, 17)):
+        add("bigbinom_%d_%d" % (n, k), [], "binomial %d %d" % (n, k), "eq", "scalar",
+            "internal::binomialCoefficient<Sym>(%d, %d)" % (n, k))
     for n in range(0, 9):
         for k in range(0, 9):
             add("binom_%d_%d" % (n, k), [], "binomial %d %d" % (n, k), "eq", "scalar",
@@ -385,7 +394,7 @@ Section KernelGen.
 
 # generated file -> families (a broken kernel only breaks the file, and the property, it belongs to)
 FILES = [("KernelGen_eval.v", ["eval"]), ("KernelGen_arr.v", ["add", "chsize"]),
-         ("KernelGen_misc.v", ["faculty", "facratio", "binom"]), ("KernelGen_der.v", ["der"]),
+         ("KernelGen_misc.v", ["faculty", "facratio", "binom"]), ("KernelGen_big.v", ["bigfaculty", "bigfacratio", "bigbinom"]), ("KernelGen_der.v", ["der"]),
          ("KernelGen_pos.v", ["pos"]), ("KernelGen_lin.v", ["lin"]), ("KernelGen_bi.v", ["bi"])]
 
 
